@@ -3,6 +3,9 @@ CONSTANT Procs = {"p1", "p2", "p3"}
 CONSTANT Jobs = {"a", "b", "c", "d"}
 CONSTANT StrictEvents = FALSE
 CONSTANT FixF5 = TRUE
+CONSTANT FixF26 = TRUE
+CONSTANT FixF27 = TRUE
+CONSTANT FixF28 = TRUE
 CONSTANT FixF23 = TRUE
 CONSTANT AddFirst = TRUE
 CONSTRAINT Progress
